@@ -189,6 +189,29 @@ pub fn replay(input: &str, output: &str) {
                 if pars.a1 != p.a1 || pars.c4 != p.c4 || pars.offsets != offs || pars.sign_corrections != p.sign_corrections || cons.from != p.from || cons.to != p.to {
                     out.put(json!({"sig": "urdf:parameters-constraints-views-disagree", "detail": desc.to_string()}));
                 }
+                // the file entry point (derived joint names only): the same robot as through the text
+                if names.is_none() && id % 5 == 2 && line["copies"] != "second-robot" {
+                    let dir = std::env::var("VERIF_TMP").unwrap_or_else(|_| "/tmp".into());
+                    let path = std::path::Path::new(&dir).join(format!("opwv-{}-{}.urdf", std::process::id(), id));
+                    if std::fs::write(&path, &xml).is_ok() {
+                        let from_file = guarded(|| rs_opw_kinematics::urdf::from_urdf_file(&path));
+                        let _ = std::fs::remove_file(&path);
+                        evals += 1;
+                        match from_file {
+                            None => out.put(json!({"sig": "urdf:file-entry-point-panics-on-valid-description", "detail": desc.to_string(), "data": desc})),
+                            Some(rf) => {
+                                let zero = [0.0; 6];
+                                let rt = p.to_robot(BY_PREV, &zero);
+                                let q: Joints = std::array::from_fn(|_| r.gen_range(-2.0..2.0));
+                                let (a, b) = (rf.forward(&q), rt.forward(&q));
+                                let same_lim = match (rf.constraints(), rt.constraints()) { (Some(x), Some(y)) => x.from == y.from && x.to == y.to, (None, None) => true, _ => false };
+                                if a != b || !same_lim {
+                                    out.put(json!({"sig": "urdf:file-entry-point-gives-another-robot", "detail": desc.to_string(), "data": desc}));
+                                }
+                            }
+                        }
+                    }
+                }
                 if id % 4 == 0 {
                     let robot = p.to_robot(BY_PREV, &offs);
                     // a configuration inside the limits (any angle for joints without limits)
